@@ -63,16 +63,18 @@ variable [PsInv σ]
 theorem mono_setBoard (L : Limits) (s : St σ) (b : Board) : Mono L s (s.setBoard b) := Mono.of_eq rfl rfl rfl rfl rfl rfl rfl
 /-- replacing the persistent state: the new one must satisfy the invariant if the old one did. -/
 theorem mono_setPs (L : Limits) (s : St σ) (ps : σ) (h : PsInv.ok s.ps → PsInv.ok ps) : Mono L s (s.setPs ps) :=
-  ⟨rfl, Int.le_refl _, fun _ h => h, id, id, id, Nat.le_refl _, h⟩
+  ⟨rfl, Int.le_refl _, fun _ h => h, id, id, id, Nat.le_refl _, id, h⟩
 theorem mono_setPv (L : Limits) (s : St σ) (pv : Pv.Rows) : Mono L s (s.setPv pv) := Mono.of_eq rfl rfl rfl rfl rfl rfl rfl
 theorem mono_push (L : Limits) (s : St σ) (sm : StackMove) : Mono L s (s.push sm) := Mono.of_eq rfl rfl rfl rfl rfl rfl rfl
 theorem mono_pop (L : Limits) (s : St σ) : Mono L s s.pop := Mono.of_eq rfl rfl rfl rfl rfl rfl rfl
 theorem mono_pushFrame (L : Limits) (s : St σ) : Mono L s s.pushFrame := Mono.of_eq rfl rfl rfl rfl rfl rfl rfl
 theorem mono_popFrame (L : Limits) (s : St σ) : Mono L s s.popFrame := Mono.of_eq rfl rfl rfl rfl rfl rfl rfl
 theorem mono_outOfFuel (L : Limits) (s : St σ) : Mono L s s.outOfFuel :=
-  ⟨rfl, Int.le_refl _, fun _ h => h, fun _ => rfl, fun _ => rfl, id, Nat.le_refl _, id⟩
+  ⟨rfl, Int.le_refl _, fun _ h => h, fun _ => rfl, fun _ => rfl, id, Nat.le_refl _, id, id⟩
 theorem mono_flag (L : Limits) (s : St σ) (a : Bool) : Mono L s (s.flag a) :=
-  ⟨rfl, Int.le_refl _, fun _ h => h, id, id, fun h => by simp [St.flag, h], Nat.le_refl _, id⟩
+  ⟨rfl, Int.le_refl _, fun _ h => h, id, id, fun h => by simp [St.flag, h], Nat.le_refl _, id, id⟩
+theorem mono_flagNmp (L : Limits) (s : St σ) (a : Bool) : Mono L s (s.flagNmp a) :=
+  ⟨rfl, Int.le_refl _, fun _ h => h, id, id, id, Nat.le_refl _, fun h => by simp [St.flagNmp, h], id⟩
 
 /-! ### quiescence -/
 
@@ -440,7 +442,7 @@ theorem nullMove_spec (c : Comp σ π) (L : Limits) {Good : Board → Prop} (hl 
   have hfr : Frame L s (r.2.setBoard (r.2.board.undoNull (s.board.makeNull c.keys).2)) :=
     ⟨(mono_setBoard L s _).trans (cc.1.mono.trans (mono_setBoard L _ _)), hb, cc.1.hstack, cc.1.frames⟩
   split
-  · exact ⟨hfr, cc.2.1⟩
+  · exact ⟨⟨hfr.mono.trans (mono_flagNmp L _ _), hfr.board, hfr.hstack, hfr.frames⟩, cc.2.1⟩
   · exact ⟨hfr, cc.2.1⟩
 
 theorem abMoves_spec (c : Comp σ π) (L : Limits) {Good : Board → Prop} (hl : Laws c Good) (child : Child σ)
